@@ -69,6 +69,9 @@ func (P) Gen(rng *sim.Rng, tier string) *harness.Case {
 	for i := 0; i < n; i++ {
 		m := rng.Intn(rs.NumModules)
 		r := rs.RS{M: m, Res: rng.Intn(nRes), Idx: i, Tw: rng.Intn(3)}
+		if rng.Chance(0.5) {
+			r.Hid = rng.Intn(rs.NumHidden[m])
+		}
 		switch rng.Intn(10) {
 		case 0, 1, 2, 3:
 			r.Var = 0
@@ -83,6 +86,12 @@ func (P) Gen(rng *sim.Rng, tier string) *harness.Case {
 			r.Nil = true
 		}
 		cfg.Table = append(cfg.Table, r)
+		if r.Valid() && rs.NumHidden[m] > 1 && rng.Chance(0.3) {
+			// an edited copy: same id (same table index in the id), one field changed
+			tw := r
+			tw.Hid = (r.Hid + 1 + rng.Intn(rs.NumHidden[m]-1)) % rs.NumHidden[m]
+			cfg.Table = append(cfg.Table, tw)
+		}
 	}
 	byMod := func(m int) []int {
 		var l []int
@@ -259,7 +268,7 @@ func call(m int, kind string, res string, list []rs.RS) (changed bool, err error
 func ids(l []rs.RS) []string {
 	var s []string
 	for _, r := range l {
-		s = append(s, r.ID())
+		s = append(s, r.Token())
 	}
 	return s
 }
@@ -526,74 +535,90 @@ func checkState(o *harness.Outcome, step int, model []rset) bool {
 			switch m {
 			case rs.Flow:
 				for _, r := range flow.GetRules() {
-					all = append(all, r.ID)
+					r := r
+					all = append(all, rs.Token(&r))
 				}
 				for i := 0; i < nRes; i++ {
 					n := rs.ResName(i)
 					for _, r := range flow.GetRulesOfResource(n) {
-						perRes[n] = append(perRes[n], r.ID)
+						r := r
+						perRes[n] = append(perRes[n], rs.Token(&r))
 					}
 					for _, tc := range flow.VerifControllersFor(n) {
-						enforced[n] = append(enforced[n], tc.BoundRule().ID)
+						enforced[n] = append(enforced[n], rs.Token(tc.BoundRule()))
 					}
 				}
 			case rs.Isolation:
 				for _, r := range isolation.GetRules() {
-					all = append(all, r.ID)
+					r := r
+					all = append(all, rs.Token(&r))
 				}
 				for i := 0; i < nRes; i++ {
 					n := rs.ResName(i)
 					for _, r := range isolation.GetRulesOfResource(n) {
-						perRes[n] = append(perRes[n], r.ID)
+						r := r
+						perRes[n] = append(perRes[n], rs.Token(&r))
 					}
 					enforced[n] = perRes[n]
 				}
 			case rs.Hotspot:
 				for _, r := range hotspot.GetRules() {
-					all = append(all, r.ID)
+					r := r
+					all = append(all, rs.Token(&r))
 				}
 				for i := 0; i < nRes; i++ {
 					n := rs.ResName(i)
 					for _, r := range hotspot.GetRulesOfResource(n) {
-						perRes[n] = append(perRes[n], r.ID)
+						r := r
+						perRes[n] = append(perRes[n], rs.Token(&r))
 					}
 					for _, tc := range hotspot.VerifControllersFor(n) {
-						enforced[n] = append(enforced[n], tc.BoundRule().ID)
+						enforced[n] = append(enforced[n], rs.Token(tc.BoundRule()))
 					}
 				}
 			case rs.Breaker:
 				for _, r := range cb.GetRules() {
-					all = append(all, r.Id)
+					r := r
+					all = append(all, rs.Token(&r))
 				}
 				for i := 0; i < nRes; i++ {
 					n := rs.ResName(i)
 					for _, r := range cb.GetRulesOfResource(n) {
-						perRes[n] = append(perRes[n], r.Id)
+						r := r
+						perRes[n] = append(perRes[n], rs.Token(&r))
 					}
 					for _, b := range cb.VerifBreakersOf(n) {
-						enforced[n] = append(enforced[n], b.BoundRule().Id)
+						enforced[n] = append(enforced[n], rs.Token(b.BoundRule()))
 					}
 				}
 			case rs.System:
 				for _, r := range system.GetRules() {
-					all = append(all, r.ID)
+					r := r
+					all = append(all, rs.Token(&r))
 				}
 				perRes["*"] = sortedSig(all)
 				enforced["*"] = perRes["*"]
 			case rs.Outlier:
 				for _, r := range outlier.GetRules() {
 					if r.Rule != nil {
-						all = append(all, r.Rule.Id)
+						r := r
+						all = append(all, rs.Token(&r))
 					}
 				}
 				for i := 0; i < nRes; i++ {
 					n := rs.ResName(i)
 					or, br := outlier.VerifRuleOf(n)
 					if or != nil && or.Rule != nil {
-						perRes[n] = append(perRes[n], or.Rule.Id)
+						perRes[n] = append(perRes[n], rs.Token(or))
 					}
 					if br != nil {
-						enforced[n] = append(enforced[n], br.Id)
+						// the breaker rule the node breakers are built from, shown inside the outlier rule it came with
+						tmp := outlier.Rule{Rule: br}
+						if or != nil {
+							tmp = *or
+							tmp.Rule = br
+						}
+						enforced[n] = append(enforced[n], rs.Token(&tmp))
 					}
 				}
 			}
